@@ -184,11 +184,11 @@ type wrapTx struct {
 	attempts int
 }
 
-func (t *wrapTx) obj() trie.Object                         { return t.Transaction.(trie.Object) }
-func (t *wrapTx) Reset(s db.Database, k []byte) error      { return t.obj().Reset(s, k) }
-func (t *wrapTx) Flush() error                             { return t.obj().Flush() }
-func (t *wrapTx) Resolve(b merkle.Builder) error           { return t.obj().Resolve(b) }
-func (t *wrapTx) ClearCache()                              { t.obj().ClearCache() }
+func (t *wrapTx) obj() trie.Object                    { return t.Transaction.(trie.Object) }
+func (t *wrapTx) Reset(s db.Database, k []byte) error { return t.obj().Reset(s, k) }
+func (t *wrapTx) Flush() error                        { return t.obj().Flush() }
+func (t *wrapTx) Resolve(b merkle.Builder) error      { return t.obj().Resolve(b) }
+func (t *wrapTx) ClearCache()                         { t.obj().ClearCache() }
 func (t *wrapTx) Equal(o trie.Object) bool {
 	if o2, ok := o.(module.Transaction); ok {
 		return bytes.Equal(o2.ID(), t.ID())
@@ -264,13 +264,13 @@ func (h *wrapHandler) Execute(ctx contract.Context, wcs state.WorldSnapshot, est
 // ---- scripted transactions -------------------------------------------------------
 
 type scriptJSON struct {
-	Type  string  `json:"type"`
-	Idx   int     `json:"idx"`
-	Seed  uint64  `json:"seed"`
-	World int     `json:"world"`
+	Type  string   `json:"type"`
+	Idx   int      `json:"idx"`
+	Seed  uint64   `json:"seed"`
+	World int      `json:"world"`
 	Locks [][2]int `json:"locks"`
 	Ops   [][2]int `json:"ops"`
-	TS    int64   `json:"ts"`
+	TS    int64    `json:"ts"`
 }
 
 const scriptType = "execsim-script"
@@ -318,16 +318,16 @@ func (t *scriptTx) ToJSON(module.JSONVersion) (interface{}, error) {
 	err := json.Unmarshal(t.raw, &m)
 	return m, err
 }
-func (t *scriptTx) ValidateNetwork(int) bool                        { return true }
-func (t *scriptTx) PreValidate(state.WorldContext, bool) error      { return nil }
-func (t *scriptTx) Timestamp() int64                                { return t.js.TS }
-func (t *scriptTx) Nonce() *big.Int                                 { return nil }
-func (t *scriptTx) To() module.Address                              { return scriptFrom }
-func (t *scriptTx) IsSkippable() bool                               { return false }
-func (t *scriptTx) Reset(s db.Database, k []byte) error             { return json.Unmarshal(k, &t.js) }
-func (t *scriptTx) Flush() error                                    { return nil }
-func (t *scriptTx) Resolve(merkle.Builder) error                    { return nil }
-func (t *scriptTx) ClearCache()                                     {}
+func (t *scriptTx) ValidateNetwork(int) bool                   { return true }
+func (t *scriptTx) PreValidate(state.WorldContext, bool) error { return nil }
+func (t *scriptTx) Timestamp() int64                           { return t.js.TS }
+func (t *scriptTx) Nonce() *big.Int                            { return nil }
+func (t *scriptTx) To() module.Address                         { return scriptFrom }
+func (t *scriptTx) IsSkippable() bool                          { return false }
+func (t *scriptTx) Reset(s db.Database, k []byte) error        { return json.Unmarshal(k, &t.js) }
+func (t *scriptTx) Flush() error                               { return nil }
+func (t *scriptTx) Resolve(merkle.Builder) error               { return nil }
+func (t *scriptTx) ClearCache()                                {}
 func (t *scriptTx) Equal(o trie.Object) bool {
 	if o2, ok := o.(module.Transaction); ok {
 		return bytes.Equal(o2.ID(), t.ID())
